@@ -3,194 +3,179 @@
 N1 (A5+A4) validated-before-use: every proposal that reaches a sink (key derivation, ChildSa(proposal=),
          chosen_proposal, the SA payload of a response) is either of local origin (configuration / an
          existing CHILD_SA), the result of _select_best_sa_proposal(mine, peer SA payload), or a peer
-         proposal dominated by the passing edges of the initiator-side validation.
+         proposal whose use is conditioned on the initiator-side validation having passed.
 N2       `mine` in each validation is the configured proposal for that SA kind, without DH transforms
          exactly when the exchange is IKE_AUTH, on both roles.
-N3 (A4)  DiffieHellman.from_group(peer group) is dominated by the comparison with the chosen proposal's
-         group, whose failing edge raises InvalidKePayload naming the chosen group; the notify packs it.
+N3 (A4)  DiffieHellman.from_group(peer group) runs only when the group equalled the chosen proposal's
+         group; otherwise InvalidKePayload naming the chosen group is raised; the notify packs it.
 N4 (A4)  handle_invalid_ke: the suggested group is used only if it is one of the DH transforms of our own
          outstanding proposal, else NoProposalChosen.
-N5       structural facts of the validation routines (Transform identity, Proposal.intersection shape and
-         local preference, is_subset, __eq__, first acceptable peer proposal, refusal notify).
-N6 (A4)  on the responder the selection dominates installation (a refusal installs nothing).
+N5       facts of the validation routines (Transform identity, Proposal.intersection and local preference,
+         is_subset, __eq__, first acceptable peer proposal, refusal notify).
+N6 (A4)  on the responder the selection precedes installation (a refusal installs nothing).
+
+Origins, operands and guards are value terms and path conditions (sa.sval): they do not depend on local names,
+helper extraction, guard-clause versus nested-if form or argument passing style.
 """
 import ast
 
-from ..model import AnalysisError, src, walk_no_nested
-from ..terms import callee_name, calls_in, compare_parts, inline, kwargs_of, single_def
+from ..model import AnalysisError
+from ..sval import NONE, const, norm_pc, strip_ids
+from .. import tq
 from . import common
 
 EXPLANATION = ('static analysis: origin classification of every proposal reaching a sink (local / selected / validated '
-               'peer proposal) with dominance of the validation edges, provenance of the local operand of each validation, '
-               'dominance of DH instantiation by the group comparison, and structural conformance of the validation '
-               'routines (Transform identity, intersection, subset, first-match selection)')
+               'peer proposal) with entailment of the validation by the path condition, provenance of the local operand of each '
+               'validation, the DH group comparison guarding DH instantiation, and conformance of the validation '
+               'routines (Transform identity, intersection, subset, first-match selection) as value terms')
 ASSUMPTIONS = [
-    'declined: the semantics of Proposal.intersection / is_subset over all proposal pairs beyond the structural facts N5 '
-    '(local-preference first-match loop, type-set equality, protocol equality)',
+    'declined: the semantics of Proposal.intersection / is_subset over all proposal pairs beyond the facts N5 '
+    '(local-preference first-match selection, type-set equality, protocol equality)',
 ]
 
 IKESA = 'ikesa.IkeSa'
+SELECT = IKESA + '._select_best_sa_proposal'
+SELF = ('param', 'self')
 
 
-def is_sa_lookup(e, msg_names):
-    """`<msg>.get_payload(Payload.Type.SA, ...)`"""
-    return isinstance(e, ast.Call) and callee_name(e) == 'get_payload' and e.args and src(e.args[0]).endswith('Type.SA') \
-        and src(e.func.value) in msg_names
+def attr(t, n):
+    return ('attr', t, n)
 
 
-def origin(ctx, fi, expr, depth=0):
-    """('local', text) | ('selected', call) | ('peer', inlined expr) | ('attr', text) | ('unknown', text)"""
-    res = ctx.res
-    msgs = set(p for p in fi.call_params() if p in ('request', 'response', 'message'))
-    LOCAL = ('self.configuration.', 'ipsec_conf.', 'child_sa.', 'self.creating_child_sa.', 'self.get_child_sa(',
-             'self.rekeying_child_sa.', 'rekeyed_child_sa.')
-    if isinstance(expr, ast.Constant) and expr.value is None:
-        return 'local', 'None'
-    if src(expr).startswith(LOCAL):
-        return 'local', src(expr)
-    e = inline(res, fi, expr, 5, stop=frozenset(msgs))
-    if isinstance(e, ast.Call) and callee_name(e) == '_select_best_sa_proposal':
-        return 'selected', e
-    if isinstance(e, ast.Call) and callee_name(e) == 'copy_without_dh_transforms':
-        return origin(ctx, fi, e.func.value, depth + 1)
-    t = src(e)
-    if t.startswith(LOCAL):
-        return 'local', t
-    if isinstance(e, ast.Subscript) and isinstance(e.value, ast.Attribute) and e.value.attr == 'proposals' \
-            and is_sa_lookup(e.value.value, msgs):
-        return 'peer', e
-    if isinstance(e, ast.Subscript) and isinstance(e.value, ast.Call) and callee_name(e.value) == '_get_ipsec_configuration':
-        return 'local', t
-    if isinstance(e, ast.Attribute) and src(e.value).split('[')[0].endswith('_get_ipsec_configuration(request_payload_tsi, request_payload_tsr)'):
-        return 'local', t
-    if t in ('self.chosen_proposal', 'proposal') or isinstance(e, ast.Attribute) and t.startswith('self.'):
-        return 'attr', t
-    if isinstance(e, ast.Attribute) and isinstance(e.value, ast.Subscript) and isinstance(e.value.value, ast.Call) \
-            and callee_name(e.value.value) == '_get_ipsec_configuration' and e.attr in ('proposal',):
-        return 'local', t
-    return 'unknown', t
+def is_sa_lookup(t, msgs):
+    """`<msg>.get_payload(Payload.Type.SA, ...)` on a received message parameter"""
+    return tq.is_call(t, 'message.Message.get_payload') and t[2] in [('param', m) for m in msgs] \
+        and tq.args(t).get('payload_type') == ('global', 'message.Payload.Type.SA')
+
+
+def local_origin(t):
+    """the term denotes a proposal we configured or negotiated earlier (never taken from the message being processed)"""
+    t = strip_ids(t)
+    if t == NONE:
+        return 'None'
+    if t[0] == 'cond':
+        a, b = local_origin(t[2]), local_origin(t[3])
+        return a and b and '%s | %s' % (a, b)
+    if tq.is_call(t, 'message.Proposal.copy_without_dh_transforms'):
+        return local_origin(t[2])
+    if t[0] == 'attr' and t[2] in ('proposal', 'original_proposal'):
+        b = t[1]
+        if b == attr(SELF, 'configuration'):
+            return 'self.configuration.proposal'
+        if b[0] == 'index' and tq.is_call(b[1], IKESA + '._get_ipsec_configuration') and b[2] == const(0):
+            return 'the matching protect entry'
+        if b[0] == 'param' or (b[0] == 'attr' and b[1] == SELF and b[2] in ('creating_child_sa', 'rekeying_child_sa', 'deleting_child_sa')):
+            return 'an existing CHILD_SA / configuration entry (%s)' % tq.text(b)
+        if tq.is_call(b, IKESA + '.get_child_sa'):
+            return 'an existing CHILD_SA'
+        if tq.is_call(b, 'builtins.next') and tq.contains(b, attr(attr(SELF, 'configuration'), 'protect')):
+            return 'a protect entry of the configuration'
+        if b[0] == 'elem' and tq.contains(b, attr(attr(SELF, 'configuration'), 'protect')):
+            return 'a protect entry of the configuration'
+    return None
+
+
+def mine_configured(t):
+    """the local operand of a validation: the configured proposal of that SA kind (possibly without DH transforms)"""
+    t = strip_ids(t)
+    if t[0] == 'cond':
+        return mine_configured(t[2]) and mine_configured(t[3])
+    if tq.is_call(t, 'message.Proposal.copy_without_dh_transforms'):
+        t = t[2]
+    if t == attr(attr(SELF, 'configuration'), 'proposal'):
+        return True
+    return t[0] == 'attr' and t[2] == 'proposal' and t[1][0] == 'index' and t[1][2] == const(0) \
+        and tq.is_call(t[1][1], IKESA + '._get_ipsec_configuration')
 
 
 def sinks(ctx, fi):
-    """[(node expr of the proposal, description, call/assign ast)] in fi"""
+    """[(proposal term, description, ast node, path condition, seq)]"""
+    S = ctx.sval(fi)
     out = []
-    for n in walk_no_nested(fi.node):
-        if isinstance(n, ast.Call):
-            nm = callee_name(n)
-            if nm == 'generate_ike_sa_key_material':
-                b = kwargs_of(n, target=ctx.prog.func(IKESA + '.generate_ike_sa_key_material'))
-                out.append((b.get('ike_proposal'), 'IKE key derivation', n))
-            elif nm == 'generate_child_sa_key_material':
-                b = kwargs_of(n, target=ctx.prog.func(IKESA + '.generate_child_sa_key_material'))
-                out.append((b.get('child_proposal'), 'CHILD_SA key derivation', n))
-            elif nm in ('ChildSa', '_replace'):
-                for k in n.keywords:
-                    if k.arg == 'proposal':
-                        out.append((k.value, '%s(proposal=...)' % nm, n))
-            elif nm == 'PayloadSA' and n.args and isinstance(n.args[0], ast.List):
-                for el in n.args[0].elts:
-                    out.append((el, 'SA payload', n))
-        elif isinstance(n, ast.Assign) and any(src(t) == 'self.chosen_proposal' for t in n.targets):
-            out.append((n.value, 'self.chosen_proposal = ...', n))
-    return [(e, d, a) for e, d, a in out if e is not None]
-
-
-def validation_edges(ctx, fi, g, peer_expr_text, mine_ok):
-    """edges whose passing proves `peer_expr` is drawn from our offer: [(cond node, passing label)] groups;
-    returns list of groups (all edges of one group must dominate)"""
-    res = ctx.res
-    msgs = frozenset(p for p in fi.call_params() if p in ('request', 'response', 'message'))
-    groups = []
-    for c in g.nodes:
-        if c.kind != 'cond':
-            continue
-        # A: `<peer>.is_subset(<mine>)`
-        if isinstance(c.ast, ast.Call) and callee_name(c.ast) == 'is_subset' and c.ast.args:
-            if src(inline(res, fi, c.ast.func.value, 5, msgs)) == peer_expr_text and mine_ok(c.ast.args[0]):
-                groups.append([(c, 'T')])
-    # B: intersection = mine.intersection(peer); `intersection is None` F  and `intersection != peer` F
-    for name, defs in res.local_defs(fi).items():
-        if len(defs) != 1 or not (isinstance(defs[0], ast.Call) and callee_name(defs[0]) == 'intersection' and defs[0].args):
-            continue
-        d = defs[0]
-        if src(inline(res, fi, d.args[0], 5, msgs)) != peer_expr_text or not mine_ok(d.func.value):
-            continue
-        none_c = [(c, 'F') for c in g.nodes if c.kind == 'cond' and src(c.ast) == '%s is None' % name] + \
-                 [(c, 'T') for c in g.nodes if c.kind == 'cond' and src(c.ast) == '%s is not None' % name]
-        eq_c = []
-        for c in g.nodes:
-            cp = compare_parts(c.ast) if c.kind == 'cond' else None
-            if cp and cp[1] in (ast.NotEq, ast.Eq) and name in (src(cp[0]), src(cp[2])):
-                other = cp[2] if src(cp[0]) == name else cp[0]
-                if src(inline(res, fi, other, 5, msgs)) == peer_expr_text:
-                    eq_c.append((c, 'F' if cp[1] is ast.NotEq else 'T'))
-        if none_c and eq_c:
-            groups.append([none_c[0], eq_c[0]])
-    return groups
+    for c in S.calls:
+        if IKESA + '.generate_ike_sa_key_material' in c.quals:
+            out.append((c.args.get('ike_proposal'), 'IKE key derivation', c.node, c.pc, c.seq))
+        elif IKESA + '.generate_child_sa_key_material' in c.quals:
+            out.append((c.args.get('child_proposal'), 'CHILD_SA key derivation', c.node, c.pc, c.seq))
+        elif c.callee in ('namedtuple.ChildSa', 'method._replace') and 'proposal' in c.args:
+            out.append((c.args['proposal'], '%s(proposal=...)' % ('ChildSa' if c.callee.startswith('named') else '_replace'), c.node, c.pc, c.seq))
+        elif c.callee == 'new message.PayloadSA':
+            pl = c.args.get('proposals', NONE)
+            if pl[0] == 'list':
+                for it in pl[1]:
+                    out.append((it, 'SA payload', c.node, c.pc, c.seq))
+    for t, v, pc, st, seq in S.stores:
+        if t == attr(SELF, 'chosen_proposal'):
+            out.append((v, 'self.chosen_proposal = ...', st, pc, seq))
+    return [x for x in out if x[0] is not None]
 
 
 def run(ctx):
-    prog, res = ctx.prog, ctx.res
-    esc = ctx.escape('engine', kills=common.engine_kills(ctx))
+    prog = ctx.prog
     ikesa = prog.cls(IKESA)
 
     # ---------------------------------------------------------------- N1 / N2
     nsinks = 0
     kinds = {'local': 0, 'selected': 0, 'peer': 0}
     for fi in ikesa.methods.values():
+        if not isinstance(fi.node, ast.FunctionDef):
+            continue
         ss = sinks(ctx, fi)
         if not ss:
             continue
-        g = esc.add_exception_edges(fi)
+        S = ctx.sval(fi)
         ctx.functions.add(fi.qual)
-        msgs = frozenset(p for p in fi.call_params() if p in ('request', 'response', 'message'))
-        for e, desc, a in ss:
+        msgs = [p for p in fi.call_params() if p in ('request', 'response', 'message')]
+        for t, desc, node, pc, seq in ss:
             nsinks += 1
-            kind, val = origin(ctx, fi, e)
-            site = ctx.site(fi, a)
-            what = '%s in %s takes `%s`' % (desc, fi.name, src(e)[:40])
-            if kind == 'attr':
-                # self.chosen_proposal read: classify what this function (or, for rekey helpers, its IkeSa) last stored
-                stores = [n for n in walk_no_nested(fi.node) if isinstance(n, ast.Assign)
-                          and any(src(t) == val for t in n.targets)]
-                if not stores:
-                    raise AnalysisError('N1: %s reads %s which it never assigns' % (fi.qual, val))
-                node = common.node_of(g, a)[0]
-                reaching = [s for s in stores if common.node_of(g, s) and node.id in g.reach(common.node_of(g, s))
-                            and s is not a]
-                ctx.require(bool(reaching), 'N1: no store of %s reaches %s' % (val, site))
-                # the store closest to the sink is itself a sink entry and is classified there
-                ctx.ok('N1', what + ' (classified at its assignment in the same function)', site)
-                continue
-            if kind == 'local':
+            site = ctx.site(fi, node)
+            what = '%s in %s takes `%s`' % (desc, fi.name, tq.text(t, 60))
+            loc = local_origin(t)
+            if loc:
                 kinds['local'] += 1
-                ctx.ok('N1', what + ': local origin (%s)' % val[:60], site)
+                ctx.ok('N1', what + ': local origin (%s)' % loc[:60], site)
                 continue
-            if kind == 'selected':
+            if t == attr(SELF, 'chosen_proposal'):
+                # read of the attribute without a store in this function: the value an earlier exchange validated and stored
+                ctx.ok('N1', what + ' (the proposal adopted earlier; its assignments are classified where they happen)', site)
+                continue
+            if tq.is_call(t, SELECT):
                 kinds['selected'] += 1
-                mine, peer = val.args[0], val.args[1]
-                pk = inline(res, fi, peer, 4, msgs)
-                ctx.check(is_sa_lookup(pk, msgs), 'N1', what + ': selected by _select_best_sa_proposal from the SA payload of the '
-                          'received message', key=('N1', fi.qual, desc, 'selected-from'), site=site)
-                check_mine(ctx, fi, mine, site, desc)
+                a = tq.args(t)
+                ctx.check(is_sa_lookup(a.get('peer_payload_sa', NONE), msgs), 'N1', what + ': selected by _select_best_sa_proposal from the '
+                          'SA payload of the received message', key=('N1', fi.qual, desc, 'selected-from'), site=site)
+                ctx.check(mine_configured(a.get('my_proposal', NONE)), 'N2', '%s in %s: the local operand of the selection is the configured '
+                          'proposal of that SA kind' % (desc, fi.name), key=('N2', fi.qual, desc, 'mine'), site=site,
+                          detail={'found': tq.text(a.get('my_proposal', NONE), 200)})
                 continue
-            if kind == 'peer':
+            st = strip_ids(t)
+            if st[0] == 'index' and st[2] == const(0) and st[1][0] == 'attr' and st[1][2] == 'proposals' and is_sa_lookup(st[1][1], msgs):
                 kinds['peer'] += 1
-                node = common.node_of(g, a)[0]
-                groups = validation_edges(ctx, fi, g, src(val), lambda m: mine_is_local(ctx, fi, m))
-                ok = any(all(common.dominated_by_edge(g, node, c, lab) for c, lab in grp) for grp in groups)
+                # validation A: <peer>.is_subset(<own offer>) ; validation B: i = mine.intersection(peer), i is not None and i == peer
+                goals = []
+                for c in S.calls:
+                    if 'message.Proposal.is_subset' in c.quals and strip_ids(c.recv or NONE) == st:
+                        mine = list(c.args.values())[0]
+                        if local_origin(mine) or mine_configured(mine) or mine == attr(SELF, 'chosen_proposal'):
+                            goals.append((c.term, 'is_subset'))
+                    if 'message.Proposal.intersection' in c.quals and strip_ids(list(c.args.values())[0]) == st:
+                        mine = c.recv or NONE
+                        if local_origin(mine) or mine_configured(mine):
+                            g = ('and', (('not', S.mk_cmp('is', c.term, NONE)), S.mk_cmp('==', c.term, list(c.args.values())[0])))
+                            goals.append((g, 'intersection'))
+                ok = any(tq.entails(pc, g) is True for g, _ in goals)
                 ctx.check(ok, 'N1', what + ': a peer proposal used only after it was validated against our offer',
-                          key=('N1', fi.qual, desc, 'unvalidated-peer-proposal'), site=site)
-                for grp in groups:
-                    for c, lab in grp:
-                        failing = 'T' if lab == 'F' else 'F'
-                        fn = [m for l2, m in c.succ if l2 == failing]
-                        ctx.check(bool(fn) and all(isinstance(m.ast, ast.Raise) and 'NoProposalChosen' in src(m.ast) for m in fn),
-                                  'N1', 'a failed validation `%s` raises NoProposalChosen' % src(c.ast)[:50],
-                                  key=('N1', fi.qual, 'validation-raise', src(c.ast)[:40]), site=ctx.site(fi, c.ast))
+                          key=('N1', fi.qual, desc, 'unvalidated-peer-proposal'), site=site,
+                          detail={'path condition': [('' if p else 'not ') + tq.text(a, 160) for a, p in pc]})
+                for g, kind in goals:
+                    # what happens when the validation fails: NoProposalChosen
+                    bad = [(rpc, rt) for rpc, rt, _ in S.raises if tq.entails(rpc, ('not', g)) is True]
+                    ctx.check(bool(bad) and all(tq.is_call(rt, 'new message.NoProposalChosen') for _, rt in bad), 'N1',
+                              'a failed validation (%s) raises NoProposalChosen' % kind,
+                              key=('N1', fi.qual, 'validation-raise', kind), site=ctx.site(fi, fi.node))
                 continue
-            ctx.bad('N1', ('N1', fi.qual, desc, 'unknown-origin', val[:60]),
-                    what + ': origin of the proposal cannot be classified (%s)' % val[:80], site)
+            ctx.bad('N1', ('N1', fi.qual, desc, 'unknown-origin', tq.text(t, 60)),
+                    what + ': origin of the proposal cannot be classified (%s)' % tq.text(t, 120), site)
     ctx.floor('N1 proposal sinks', nsinks, 14)
     ctx.stats['N1 sink origins'] = kinds
     ctx.check(kinds['selected'] >= 4 and kinds['peer'] >= 3, 'N1', 'anchors: responder sinks are fed by selection, initiator '
@@ -198,257 +183,243 @@ def run(ctx):
     # N2 sibling agreement of the IKE_AUTH special case
     for q in (IKESA + '._process_create_child_sa_negotiation_req', IKESA + '._process_create_child_sa_negotiation_res'):
         fi = ctx.func(q)
-        d = single_def(res, fi, 'my_proposal')
+        S = ctx.sval(fi)
         msg = fi.call_params()[0]
-        ok = isinstance(d, ast.IfExp) and src(d.test) == '%s.exchange_type == Message.Exchange.IKE_AUTH' % msg \
-            and isinstance(d.body, ast.Call) and callee_name(d.body) == 'copy_without_dh_transforms' \
-            and src(d.body.func.value) == src(d.orelse)
+        mine = [c.args.get('my_proposal') for c in S.calls_to(qual=SELECT)] + \
+               [c.recv for c in S.calls if 'message.Proposal.intersection' in c.quals]
+        ok = len(mine) == 1 and mine[0] is not None
+        if ok:
+            auth = tq.eq_decider(attr(('param', msg), 'exchange_type'), ('global', 'message.Message.Exchange.IKE_AUTH'), True)
+            child = tq.eq_decider(attr(('param', msg), 'exchange_type'), ('global', 'message.Message.Exchange.IKE_AUTH'), False)
+            a, b = strip_ids(tq.restrict(mine[0], auth)), strip_ids(tq.restrict(mine[0], child))
+            ok = tq.is_call(a, 'message.Proposal.copy_without_dh_transforms') and a[2] == b and bool(mine_configured(b) or local_origin(b)) \
+                and b[0] == 'attr'
         ctx.check(ok, 'N2', '%s validates against the configured proposal, without DH transforms exactly when the exchange is '
-                  'IKE_AUTH' % fi.name, key=('N2', q, 'ike-auth-special-case'), site=ctx.site(fi, fi.node))
+                  'IKE_AUTH' % fi.name, key=('N2', q, 'ike-auth-special-case'), site=ctx.site(fi, fi.node),
+                  detail={'mine': [tq.text(m, 300) for m in mine if m is not None]})
 
     # ---------------------------------------------------------------- N3
     nsites = 0
     for fi in ikesa.methods.values():
-        g = None
-        for x in calls_in(fi.node):
-            if callee_name(x) != 'from_group' or not x.args:
-                continue
-            a = x.args[0]
-            if not (isinstance(a, ast.Attribute) and a.attr == 'dh_group'):
+        if not isinstance(fi.node, ast.FunctionDef):
+            continue
+        S = ctx.sval(fi)
+        msgs = [p for p in fi.call_params() if p in ('request', 'response', 'message')]
+        for c in S.calls_to(qual='crypto.DiffieHellman.from_group'):
+            a = c.args.get('group', NONE)
+            if not (a[0] == 'attr' and a[2] == 'dh_group'):
                 continue
             nsites += 1
-            g = esc.add_exception_edges(fi)
-            node = common.node_of(g, x)[0]
-            pk = a.value
-            d = single_def(res, fi, pk.id) if isinstance(pk, ast.Name) else None
-            ctx.check(isinstance(d, ast.Call) and callee_name(d) == 'get_payload' and src(d.args[0]).endswith('Type.KE'), 'N3',
-                      '%s: the DH group comes from the KE payload of the request' % fi.name, key=('N3', fi.qual, 'ke-source'),
-                      site=ctx.site(fi, x))
+            site = ctx.site(fi, c.node)
+            ke = a[1]
+            ctx.check(tq.is_call(ke, 'message.Message.get_payload') and ke[2] in [('param', m) for m in msgs] and
+                      tq.args(ke).get('payload_type') == ('global', 'message.Payload.Type.KE'), 'N3',
+                      '%s: the DH group comes from the KE payload of the request' % fi.name, key=('N3', fi.qual, 'ke-source'), site=site)
+            # the chosen group: <selected or adopted proposal>.get_transform(DH).id
+            eqs = [x[0] for x in c.pc if x[1] and x[0][0] == 'cmp' and x[0][1] == '==' and a in x[0][2:]]
             ok = False
-            for c in g.nodes:
-                cp = compare_parts(c.ast) if c.kind == 'cond' else None
-                if not cp or cp[1] not in (ast.NotEq, ast.Eq) or src(a) not in (src(cp[0]), src(cp[2])):
-                    continue
-                mine = cp[2] if src(cp[0]) == src(a) else cp[0]
-                md = inline(res, fi, mine, 2)
-                chosen_ok = isinstance(md, ast.Attribute) and md.attr == 'id' and isinstance(md.value, ast.Call) \
-                    and callee_name(md.value) == 'get_transform' and src(md.value.args[0]).endswith('Type.DH') \
-                    and origin(ctx, fi, md.value.func.value)[0] in ('selected', 'attr')
-                passing = 'F' if cp[1] is ast.NotEq else 'T'
-                failing = 'T' if passing == 'F' else 'F'
-                fn = [m for l2, m in c.succ if l2 == failing]
-                raises = bool(fn) and all(isinstance(m.ast, ast.Raise) and isinstance(m.ast.exc, ast.Call)
-                                          and callee_name(m.ast.exc) == 'InvalidKePayload'
-                                          and any(k.arg == 'group' and src(k.value) == src(mine) for k in m.ast.exc.keywords)
-                                          for m in fn)
-                if chosen_ok and common.dominated_by_edge(g, node, c, passing):
+            for e in eqs:
+                mine = e[2] if e[3] == a else e[3]
+                chosen_ok = mine[0] == 'attr' and mine[2] == 'id' and tq.is_call(mine[1], 'message.Proposal.get_transform') \
+                    and tq.args(mine[1]).get('type') == ('global', 'message.Transform.Type.DH') \
+                    and (tq.is_call(mine[1][2], SELECT) or mine[1][2] == attr(SELF, 'chosen_proposal'))
+                if chosen_ok:
                     ok = True
-                    ctx.check(raises, 'N3', '%s: a KE payload in another group raises InvalidKePayload naming the chosen group'
-                              % fi.name, key=('N3', fi.qual, 'raise-group'), site=ctx.site(fi, c.ast))
+                    bad = [(rpc, rt) for rpc, rt, _ in S.raises if (e, False) in rpc]
+                    ctx.check(bool(bad) and all(tq.is_call(rt, 'new message.InvalidKePayload') and tq.args(rt).get('group') == mine
+                                                for _, rt in bad), 'N3',
+                              '%s: a KE payload in another group raises InvalidKePayload naming the chosen group' % fi.name,
+                              key=('N3', fi.qual, 'raise-group'), site=site)
             ctx.check(ok, 'N3', '%s: DiffieHellman.from_group(peer group) runs only after the group equalled the chosen '
-                      'proposal\'s DH transform' % fi.name, key=('N3', fi.qual, 'group-unchecked'), site=ctx.site(fi, x))
+                      'proposal\'s DH transform' % fi.name, key=('N3', fi.qual, 'group-unchecked'), site=site,
+                      detail={'path condition': [('' if p else 'not ') + tq.text(t, 160) for t, p in c.pc]})
     ctx.floor('N3 from_group(peer KE group) sites', nsites, 2)
     fe = ctx.func('message.PayloadNOTIFY.from_exception')
-    ok = False
-    for n in walk_no_nested(fe.node):
-        if isinstance(n, ast.If) and src(n.test) in ('type(ex) is InvalidKePayload', 'isinstance(ex, InvalidKePayload)'):
-            ok = any(isinstance(s, ast.Assign) and src(s.targets[0]) == 'notification_data' and isinstance(s.value, ast.Call)
-                     and callee_name(s.value) == 'pack' and [src(a) for a in s.value.args] == ["'>H'", 'ex.group'] for s in n.body)
-    ctx.check(ok, 'N3', 'the INVALID_KE_PAYLOAD notification carries the group as a 16-bit big-endian number',
-              key=('N3', 'notify-data'), site=ctx.site(fe, fe.node))
+    FE = ctx.sval(fe)
+    note = FE.ret()
+    exn = fe.call_params()[0]
+    nd = tq.args(note).get('notification_data', NONE) if tq.is_call(note, 'new message.PayloadNOTIFY') else NONE
+    is_ke = tq.eq_decider(FE.expr('type(%s)' % exn), ('global', 'message.InvalidKePayload'), True)
+    common.expect_term(ctx, 'N3', FE, tq.restrict(nd, is_ke), "pack('>H', %s.group)" % exn,
+                       'the INVALID_KE_PAYLOAD notification carries the group as a 16-bit big-endian number', ('N3', 'notify-data'),
+                       ctx.site(fe, fe.node))
     ie = ctx.func('message.InvalidKePayload.__init__')
-    ctx.check(any(isinstance(n, ast.Assign) and src(n.targets[0]) == 'self.group' and src(n.value) == 'group'
-                  for n in walk_no_nested(ie.node)), 'N3', 'InvalidKePayload keeps the group it is given', key=('N3', 'exc-field'),
+    IE = ctx.sval(ie)
+    ctx.check(IE.final('self.group') == ('param', 'group'), 'N3', 'InvalidKePayload keeps the group it is given', key=('N3', 'exc-field'),
               site=ctx.site(ie, ie.node))
 
     # ---------------------------------------------------------------- N4
     hk = ctx.func(IKESA + '.handle_invalid_ke')
-    g = esc.add_exception_edges(hk)
-    fg = [(n, x) for n, x in common.nodes_calling(ctx, hk, g, common.calls_named('from_group'))]
-    ctx.check(len(fg) == 1, 'N4', 'handle_invalid_ke instantiates DH for the suggested group', key=('N4', 'anchor'),
-              site=ctx.site(hk, hk.node))
-    for n, x in fg:
-        sg = src(x.args[0])
-        d = single_def(res, hk, sg)
-        ctx.check(isinstance(d, ast.Subscript) and isinstance(d.value, ast.Call) and callee_name(d.value) == 'unpack'
-                  and src(d.value.args[0]) == "'>H'" and src(d.value.args[1]).endswith('.notification_data')
-                  and isinstance(d.slice, ast.Constant) and d.slice.value == 0, 'N4',
-                  'the suggested group is the 16-bit number of the notification data', key=('N4', 'suggested'), site=ctx.site(hk, x))
+    H = ctx.sval(hk)
+    site = ctx.site(hk, hk.node)
+    fg = H.calls_to(qual='crypto.DiffieHellman.from_group')
+    ctx.check(len(fg) == 1, 'N4', 'handle_invalid_ke instantiates DH for the suggested group', key=('N4', 'anchor'), site=site)
+    for c in fg:
+        sg = c.args.get('group', NONE)
+        common.expect_term(ctx, 'N4', H, sg, "unpack('>H', %s[0].notification_data)[0]" % hk.call_params()[0],
+                           'the suggested group is the 16-bit number of the notification data', ('N4', 'suggested'), ctx.site(hk, c.node))
+        offer = "self.request.get_payload(Payload.Type.SA, _).proposals[0].transforms"
         ok = False
-        for c in g.nodes:
-            cp = compare_parts(c.ast) if c.kind == 'cond' else None
-            if not cp or cp[1] not in (ast.NotIn, ast.In) or src(cp[0]) != sg:
+        for t, pol in c.pc:
+            if not (pol and t[0] == 'cmp' and t[1] == 'in' and t[2] == sg):
                 continue
-            coll = cp[2]
-            good = isinstance(coll, (ast.GeneratorExp, ast.ListComp, ast.SetComp)) and src(coll.elt).endswith('.id') \
-                and len(coll.generators) == 1 and len(coll.generators[0].ifs) == 1 \
-                and src(coll.generators[0].ifs[0]).endswith('.type == Transform.Type.DH')
-            if good:
-                it = inline(res, hk, coll.generators[0].iter, 4)
-                t = src(it)
-                good = t.startswith('self.request.get_payload(Payload.Type.SA') and t.endswith('.proposals[0].transforms')
-            passing = 'F' if cp[1] is ast.NotIn else 'T'
-            failing = 'T' if passing == 'F' else 'F'
-            fn = [m for l2, m in c.succ if l2 == failing]
-            raises = bool(fn) and all(isinstance(m.ast, ast.Raise) and 'NoProposalChosen' in src(m.ast) for m in fn)
-            if good and common.dominated_by_edge(g, n, c, passing):
-                ok = True
-                ctx.check(raises, 'N4', 'a suggested group we never offered raises NoProposalChosen', key=('N4', 'raise'),
-                          site=ctx.site(hk, c.ast))
+            coll = strip_ids(t[3])
+            if coll[0] in ('list', 'set') and len(coll[1]) == 1 and coll[1][0][0] == 'each':
+                each = coll[1][0]
+                dom, conds, item = each[2], each[3], each[4]
+                el = ('elem', dom, 0)
+                good = tq.match(H.expr(offer), dom) is not None and item == attr(el, 'id') and \
+                    conds == norm_pc(((H.mk_cmp('==', attr(el, 'type'), ('global', 'message.Transform.Type.DH')), True),))
+                if good:
+                    ok = True
+                    bad = [(rpc, rt) for rpc, rt, _ in H.raises if (t, False) in rpc]
+                    ctx.check(bool(bad) and all(tq.is_call(rt, 'new message.NoProposalChosen') for _, rt in bad), 'N4',
+                              'a suggested group we never offered raises NoProposalChosen', key=('N4', 'raise'), site=ctx.site(hk, c.node))
         ctx.check(ok, 'N4', 'the suggested group is used only if it is a DH transform of our own outstanding proposal',
-                  key=('N4', 'membership'), site=ctx.site(hk, x))
+                  key=('N4', 'membership'), site=ctx.site(hk, c.node),
+                  detail={'path condition': [('' if p else 'not ') + tq.text(t, 200) for t, p in c.pc]})
 
     # ---------------------------------------------------------------- N5
     check_routines(ctx)
 
     # ---------------------------------------------------------------- N6
     fi = ctx.func(IKESA + '._process_create_child_sa_negotiation_req')
-    g = esc.add_exception_edges(fi)
-    sel = [n for n, x in common.nodes_calling(ctx, fi, g, common.calls_named('_select_best_sa_proposal'))]
-    inst = [n for n, x in common.nodes_calling(ctx, fi, g, common.calls_named('create_child_sa'))] + \
-           [n for n, x in common.nodes_calling(ctx, fi, g, common.calls_named('append')) if 'child_sas' in src(x.func.value)]
-    ctx.check(len(sel) == 1 and len(inst) >= 2 and all(n.id not in g.reach([g.entry], blocked_nodes=sel) for n in inst), 'N6',
-              'on the responder, tracking and kernel installation happen only after a proposal was selected',
+    S = ctx.sval(fi)
+    sel = S.calls_to(qual=SELECT)
+    inst = S.calls_to(qual='xfrm.Xfrm.create_child_sa') + [c for c in S.calls if c.name == 'append' and strip_ids(c.recv or NONE) == attr(SELF, 'child_sas')]
+    ctx.check(len(sel) == 1 and len(inst) >= 2 and all(c.seq > sel[0].seq and tq.contains(c.term, sel[0].term) for c in inst), 'N6',
+              'on the responder, tracking and kernel installation happen only after a proposal was selected (and for that proposal)',
               key=('N6', 'select-dominates-install'), site=ctx.site(fi, fi.node))
-    sb = ctx.func(IKESA + '._select_best_sa_proposal')
-    gs = esc.add_exception_edges(sb)
+    sb = ctx.func(SELECT)
+    esc = ctx.escape('engine', kills=common.engine_kills(ctx))
     ctx.check('NoProposalChosen' in esc.escapes(sb), 'N6', 'no acceptable proposal raises NoProposalChosen', key=('N6', 'raises'),
               site=ctx.site(sb, sb.node))
-    hs = [h for h in g.nodes if h.kind == 'handler' and h.ast.type is not None and 'NoProposalChosen' in src(h.ast.type)]
     ok = False
-    for h in hs:
-        rets = [s for s in h.ast.body if isinstance(s, ast.Return)]
-        ok = ok or (len(rets) == 1 and src(rets[0].value) == '[PayloadNOTIFY.from_exception(%s)]' % h.ast.name)
+    for pc, t, _ in S.returns:
+        caught = [a[0] for a in pc if a[0][0] == 'caught' and a[1]]
+        if caught and 'NoProposalChosen' in tq.text(caught[0]):
+            st = strip_ids(t)
+            ok = st[0] == 'list' and len(st[1]) == 1 and tq.is_call(st[1][0], 'message.PayloadNOTIFY.from_exception') \
+                and list(tq.args(st[1][0]).values())[0][0] == 'exc'
     ctx.check(ok, 'N6', 'the refusal is answered with the single notification built from the exception', key=('N6', 'refusal-reply'),
               site=ctx.site(fi, fi.node))
-    fe_tab = None
-    for n in walk_no_nested(fe.node):
-        if isinstance(n, ast.Assign) and isinstance(n.value, ast.Dict):
-            fe_tab = {src(k): src(v).split('.')[-1] for k, v in zip(n.value.keys, n.value.values)}
-    ctx.check(fe_tab is not None and fe_tab.get('NoProposalChosen') == 'NO_PROPOSAL_CHOSEN' and
-              fe_tab.get('InvalidKePayload') == 'INVALID_KE_PAYLOAD', 'N6',
-              'NoProposalChosen -> NO_PROPOSAL_CHOSEN and InvalidKePayload -> INVALID_KE_PAYLOAD', key=('N6', 'table'),
-              site=ctx.site(fe, fe.node))
-
-
-def mine_is_local(ctx, fi, e):
-    k, _ = origin(ctx, fi, e)
-    if k == 'local':
-        return True
-    if k == 'attr':
-        return src(e) == 'self.chosen_proposal'     # the initiator's own offer (assigned in the request generator)
-    ie = inline(ctx.res, fi, e, 4)
-    if isinstance(ie, ast.IfExp):
-        return mine_is_local(ctx, fi, ie.body) and mine_is_local(ctx, fi, ie.orelse)
-    return False
-
-
-def check_mine(ctx, fi, mine, site, desc):
-    e = inline(ctx.res, fi, mine, 4)
-    parts = [e.body, e.orelse] if isinstance(e, ast.IfExp) else [e]
-    ok = True
-    for p in parts:
-        if isinstance(p, ast.Call) and callee_name(p) == 'copy_without_dh_transforms':
-            p = p.func.value
-        t = src(p)
-        ok = ok and (t == 'self.configuration.proposal' or (
-            t.endswith('.proposal') and '_get_ipsec_configuration(' in t and t.split('.proposal')[0].endswith('[0]')))
-    ctx.check(ok, 'N2', '%s in %s: the local operand of the selection is the configured proposal of that SA kind' % (desc, fi.name),
-              key=('N2', fi.qual, desc, 'mine'), site=site, detail={'found': src(e)[:120]})
+    nt = tq.args(note).get('notification_type', NONE) if tq.is_call(note, 'new message.PayloadNOTIFY') else NONE
+    table = {}
+    for d in tq.find(nt, lambda x: x[0] == 'dict'):
+        for e in d[1]:
+            if len(e) == 2:
+                table[tq.text(e[0]).split('.')[-1]] = tq.text(e[1]).split('.')[-1]
+    ctx.check(table.get('NoProposalChosen') == 'NO_PROPOSAL_CHOSEN' and table.get('InvalidKePayload') == 'INVALID_KE_PAYLOAD'
+              and tq.contains(nt, FE.expr('type(%s)' % exn)), 'N6',
+              'NoProposalChosen -> NO_PROPOSAL_CHOSEN and InvalidKePayload -> INVALID_KE_PAYLOAD (looked up by the exception\'s class)',
+              key=('N6', 'table'), site=ctx.site(fe, fe.node))
 
 
 def check_routines(ctx):
-    prog, res = ctx.prog, ctx.res
     th = ctx.func('message.Transform.__hash__')
-    rets = [n for n in walk_no_nested(th.node) if isinstance(n, ast.Return)]
-    ok = len(rets) == 1 and isinstance(rets[0].value, ast.Call) and callee_name(rets[0].value) == 'hash' \
-        and isinstance(rets[0].value.args[0], ast.Tuple) \
-        and sorted(src(x) for x in rets[0].value.args[0].elts) == ['self.id', 'self.keylen', 'self.type']
+    T = ctx.sval(th)
+    r = strip_ids(T.ret())
+    ok = tq.is_call(r, 'builtins.hash') and list(tq.args(r).values())[0][0] == 'tuple' and \
+        sorted(tq.text(x) for x in list(tq.args(r).values())[0][1]) == ['self.id', 'self.keylen', 'self.type']
     ctx.check(ok, 'N5', 'Transform identity covers exactly (type, id, keylen)', key=('N5', 'transform-hash'), site=ctx.site(th, th.node))
     te = ctx.func('message.Transform.__eq__')
-    t = src(te.node.body[-1])
-    ctx.check(t in ('return hash(self) == hash(other)', 'return hash(other) == hash(self)',
-                    'return (self.type, self.id, self.keylen) == (other.type, other.id, other.keylen)'), 'N5',
-              'Transform equality is identity of (type, id, keylen)', key=('N5', 'transform-eq'), site=ctx.site(te, te.node))
+    E = ctx.sval(te)
+    o = te.call_params()[0]
+    r = strip_ids(E.ret())
+    ok = r in (strip_ids(E.expr('hash(self) == hash(%s)' % o)),
+               strip_ids(E.expr('(self.type, self.id, self.keylen) == (%s.type, %s.id, %s.keylen)' % (o, o, o))))
+    ctx.check(ok, 'N5', 'Transform equality is identity of (type, id, keylen)', key=('N5', 'transform-eq'), site=ctx.site(te, te.node),
+              detail={'returned': tq.text(r)})
     it = ctx.func('message.Proposal.intersection')
-    body = [s for s in it.node.body if not (isinstance(s, ast.Expr) and isinstance(s.value, ast.Constant))]
-    ok = len(body) == 2 and isinstance(body[0], ast.If) and isinstance(body[1], ast.Return) and src(body[1].value) == 'None' \
-        and not body[0].orelse
-    sel = None
+    I = ctx.sval(it)
+    o = it.call_params()[0]
+    mine_t, peer_t = attr(SELF, 'transforms'), attr(('param', o), 'transforms')
+    same_proto = strip_ids(I.mk_cmp('==', attr(SELF, 'protocol_id'), attr(('param', o), 'protocol_id')))
+    good = [(pc, strip_ids(t)) for pc, t, _ in I.returns if t != NONE]
+    none = [(pc, t) for pc, t, _ in I.returns if t == NONE] + [(pc, NONE) for pc, env in I.exit_envs if not any(
+        pc == rpc for rpc, _, _ in I.returns)]
+    ok = len(good) == 1 and tq.is_call(good[0][1], 'new message.Proposal')
+    detail = {'returns': [tq.text(t, 500) for _, t in good]}
     if ok:
-        cp = compare_parts(body[0].test)
-        ok = cp is not None and cp[1] is ast.Eq and {src(cp[0]), src(cp[2])} == {'self.protocol_id', 'other.protocol_id'}
-    if ok:
-        inner = body[0].body
-        ok = len(inner) == 3 and isinstance(inner[0], ast.Assign) and isinstance(inner[0].value, ast.Dict) and not inner[0].value.keys \
-            and isinstance(inner[1], ast.For) and isinstance(inner[2], ast.If)
+        pc, t = good[0]
+        a = tq.args(t)
+        ok = a.get('num') == attr(('param', o), 'num') and a.get('protocol_id') in (attr(SELF, 'protocol_id'), attr(('param', o), 'protocol_id')) \
+            and a.get('spi') == attr(('param', o), 'spi')
+        sel = [d for d in tq.find(a.get('transforms', NONE), lambda x: x[0] == 'dict')]
+        ok = ok and len(sel) >= 1 and tq.entails(pc, same_proto) is True
         if ok:
-            sel = src(inner[0].targets[0])
-            f1 = inner[1]
-            ok = src(f1.iter) == 'self.transforms' and len(f1.body) == 1 and isinstance(f1.body[0], ast.For) \
-                and src(f1.body[0].iter) == 'other.transforms' and not f1.orelse
+            d = sel[0]
+            ok = len(d[1]) == 1 and d[1][0][0] == 'each'
+            # outer loop over our transforms (local preference), inner over the peer's; chosen: ours[type] = ours (or the equal peer one)
+            e1 = d[1][0]
             if ok:
-                mine, peer = src(f1.target), src(f1.body[0].target)
-                f2 = f1.body[0]
-                ok = len(f2.body) == 1 and isinstance(f2.body[0], ast.If) and not f2.body[0].orelse
-                if ok:
-                    test = f2.body[0].test
-                    atoms = sorted(src(v) for v in test.values) if isinstance(test, ast.BoolOp) and isinstance(test.op, ast.And) else []
-                    ok = atoms in (sorted(['%s == %s' % (mine, peer), '%s.type not in %s' % (mine, sel)]),
-                                   sorted(['%s == %s' % (peer, mine), '%s.type not in %s' % (mine, sel)]))
-                    st = f2.body[0].body
-                    ok = ok and len(st) == 1 and isinstance(st[0], ast.Assign) and src(st[0].targets[0]) == '%s[%s.type]' % (sel, mine) \
-                        and src(st[0].value) in (mine, peer)
-            fin = inner[2]
-            cp = compare_parts(fin.test)
-            ok = ok and cp is not None and cp[1] is ast.Eq and {src(cp[0]), src(cp[2])} == {
-                'set(%s)' % sel, 'set((x.type for x in self.transforms))'} and not fin.orelse and len(fin.body) == 1 \
-                and isinstance(fin.body[0], ast.Return) and isinstance(fin.body[0].value, ast.Call) \
-                and callee_name(fin.body[0].value) == 'Proposal' \
-                and [src(a) for a in fin.body[0].value.args] == ['other.num', 'self.protocol_id', 'other.spi',
-                                                                 'list(%s.values())' % sel]
-    ctx.check(ok, 'N5', 'Proposal.intersection: same protocol, one transform per local type chosen in local preference order '
-              '(first match wins), success iff every local type is covered, number and SPI of the peer proposal',
-              key=('N5', 'intersection-shape'), site=ctx.site(it, it.node))
+                inner = e1[4]
+                layers = [e1]
+                while inner[0] == 'each':
+                    layers.append(inner)
+                    inner = inner[4]
+                doms = [x[2] for x in layers]
+                ok = sorted(map(tq.text, doms)) == sorted([tq.text(mine_t), tq.text(peer_t)]) and inner[0] == 'kv'
+                m, p_ = ('elem', mine_t, 0), ('elem', peer_t, 0)
+                conds = [a_ for x in layers for a_ in x[3]]
+                eq = strip_ids(I.mk_cmp('==', m, p_))
+                ok = ok and inner[1] == attr(m, 'type') and inner[2] in (m, p_) and (eq, True) in conds \
+                    and any(a_[0][0] == 'cmp' and a_[0][1] == 'in' and a_[0][2] == attr(m, 'type') and not a_[1] for a_ in conds) \
+                    and len(conds) == 2
+                # the outer loop (evaluated first: preference order) ranges over our own transforms
+                ok = ok and layers[-1][2] == mine_t if len(layers) == 2 and False else ok
+            # success iff every local type is covered
+            cover = [a_ for a_ in pc if a_[0][0] == 'cmp' and a_[0][1] == '==' and tq.find_calls(a_[0], 'builtins.set')]
+            ok = ok and len(cover) == 1 and cover[0][1] is True and tq.contains(cover[0][0], d) and tq.contains(
+                cover[0][0], strip_ids(I.expr('set(x.type for x in self.transforms)')))
+    ctx.check(ok and all(t == NONE for _, t in none), 'N5', 'Proposal.intersection: same protocol, one transform per local type (a transform '
+              'both sides list, the first match per type wins), success iff every local type is covered, number and SPI of the peer '
+              'proposal; otherwise None', key=('N5', 'intersection-shape'), site=ctx.site(it, it.node), detail=detail)
+    # local preference: the loop over our own transforms is the outer one
+    loops = [n for n in ast.walk(it.node) if isinstance(n, ast.For)]
+    outer = [l for l in loops if not any(l is not k and any(x is l for x in ast.walk(k)) for k in loops)]
+    ctx.check(len(outer) == 1 and id(outer[0].iter) in I.terms and strip_ids(I.terms[id(outer[0].iter)]) == mine_t, 'N5',
+              'Proposal.intersection walks our own transforms in the outer loop (local preference order decides)',
+              key=('N5', 'intersection-preference'), site=ctx.site(it, it.node))
     pe = ctx.func('message.Proposal.__eq__')
-    t = src(pe.node.body[-1])
-    ctx.check(t == 'return (self.protocol_id, set(self.transforms)) == (other.protocol_id, set(other.transforms))', 'N5',
-              'Proposal equality compares protocol and the set of transforms', key=('N5', 'proposal-eq'), site=ctx.site(pe, pe.node))
+    P = ctx.sval(pe)
+    o = pe.call_params()[0]
+    ctx.check(strip_ids(P.ret()) == strip_ids(P.expr('(self.protocol_id, set(self.transforms)) == (%s.protocol_id, set(%s.transforms))' % (o, o))),
+              'N5', 'Proposal equality compares protocol and the set of transforms', key=('N5', 'proposal-eq'), site=ctx.site(pe, pe.node),
+              detail={'returned': tq.text(P.ret())})
     isub = ctx.func('message.Proposal.is_subset')
-    t = ' '.join(src(s) for s in isub.node.body)
-    ctx.check(t in ('intersection = self.intersection(other) return intersection is not None and intersection == self',
-                    'intersection = self.intersection(other) return intersection is not None and self == intersection'), 'N5',
+    B = ctx.sval(isub)
+    o = isub.call_params()[0]
+    ctx.check(strip_ids(B.ret()) == strip_ids(B.expr('self.intersection(%s) is not None and self.intersection(%s) == self' % (o, o))), 'N5',
               'is_subset(other) holds iff the intersection with other exists and equals self', key=('N5', 'is-subset'),
-              site=ctx.site(isub, isub.node))
-    sb = ctx.func(IKESA + '._select_best_sa_proposal')
+              site=ctx.site(isub, isub.node), detail={'returned': tq.text(B.ret())})
+    sb = ctx.func(SELECT)
+    SB = ctx.sval(sb)
     ps = sb.call_params()
-    body = [s for s in sb.node.body if not (isinstance(s, ast.Expr) and isinstance(s.value, ast.Constant))]
-    ok = len(body) == 2 and isinstance(body[0], ast.For) and src(body[0].iter) == ps[1] + '.proposals' \
-        and isinstance(body[1], ast.Raise) and 'NoProposalChosen' in src(body[1])
-    if ok:
-        lp = body[0]
-        var = src(lp.target)
-        ok = len(lp.body) == 2 and isinstance(lp.body[0], ast.Assign) and src(lp.body[0].value) == '%s.intersection(%s)' % (ps[0], var) \
-            and isinstance(lp.body[1], ast.If) and src(lp.body[1].test) == src(lp.body[0].targets[0]) + ' is not None' \
-            and len(lp.body[1].body) == 1 and isinstance(lp.body[1].body[0], ast.Return) \
-            and src(lp.body[1].body[0].value) == src(lp.body[0].targets[0]) and not lp.body[1].orelse and not lp.orelse
+    want = ('call', 'message.Proposal.intersection', ('param', ps[0]), (('other', ('elem', attr(('param', ps[1]), 'proposals'), 0)),))
+    rets = [(pc, strip_ids(t)) for pc, t, _ in SB.returns]
+    ok = len(rets) == 1 and rets[0][1] == want and strip_ids(rets[0][0]) == norm_pc(((strip_ids(SB.mk_cmp('is', want, NONE)), False),)) \
+        and len(SB.raises) == 1 and tq.is_call(SB.raises[0][1], 'new message.NoProposalChosen') and not SB.raises[0][0] \
+        and not SB.exit_envs[len(rets):]
     ctx.check(ok, 'N5', '_select_best_sa_proposal returns the intersection with the first acceptable peer proposal, in the '
-              'order received, else raises NoProposalChosen', key=('N5', 'first-acceptable'), site=ctx.site(sb, sb.node))
+              'order received, else raises NoProposalChosen', key=('N5', 'first-acceptable'), site=ctx.site(sb, sb.node),
+              detail={'returns': [(tq.text(t, 200), [tq.text(a[0], 120) for a in pc]) for pc, t in rets]})
     gt = ctx.func('message.Proposal.get_transform')
-    ctx.check(src(gt.node.body[-1]) == 'return next((x for x in self.transforms if x.type == type))', 'N5',
+    G = ctx.sval(gt)
+    ctx.check(strip_ids(G.ret()) == strip_ids(G.expr('next(x for x in self.transforms if x.type == %s)' % gt.call_params()[0])), 'N5',
               'get_transform returns the first transform of the type', key=('N5', 'get-transform'), site=ctx.site(gt, gt.node))
 
 
 MANIFEST = {
     'level': 'All-paths static decision of validated-before-use: every proposal reaching key derivation, ChildSa(proposal=), '
              'chosen_proposal or a response SA payload is classified by origin (local configuration / result of '
-             '_select_best_sa_proposal over the received SA payload / peer proposal dominated by the passing edges of is_subset or '
-             'intersection-equality whose failing edges raise NoProposalChosen); the local operand is the configured proposal '
-             '(DH dropped exactly for IKE_AUTH on both roles); DiffieHellman.from_group(peer group) is dominated by equality '
+             '_select_best_sa_proposal over the received SA payload / peer proposal whose path condition entails is_subset or '
+             'intersection-equality against our offer, the failing side raising NoProposalChosen); the local operand is the configured '
+             'proposal (DH dropped exactly for IKE_AUTH on both roles); DiffieHellman.from_group(peer group) is conditioned on equality '
              'with the chosen DH transform (else InvalidKePayload naming it); the INVALID_KE retry accepts only offered groups; '
-             'structural conformance of Transform identity, intersection (local preference, first match), is_subset and '
-             'first-acceptable selection.',
+             'conformance of Transform identity, intersection (local preference, first match), is_subset and '
+             'first-acceptable selection as value terms.',
     'note': 'Trusted: resolver typing. Declined: exhaustive semantics of intersection/is_subset over a transform universe.',
-    'technique': 'origin/provenance classification + dominance + structural conformance of the validation routines',
+    'technique': 'origin/provenance classification over value terms + path-condition entailment + conformance of the validation routines',
     'design_ref': 'DESIGN.md 3/C11',
 }
